@@ -61,6 +61,10 @@ type c08Case struct {
 	DelaySeed int64    `json:"delay_seed,omitempty"`
 	// full: the rest of renderResources (c08_full.go)
 	Full *c08Full `json:"full,omitempty"`
+	// guard: the flags of an install that decide whether a rendered manifest is applied
+	DryRun       bool   `json:"dry_run,omitempty"`
+	DryRunOption string `json:"dry_run_option,omitempty"`
+	HideSecret   bool   `json:"hide_secret,omitempty"`
 }
 
 type c08Hook struct {
@@ -118,6 +122,9 @@ type c08Obs struct {
 	PRIn    []byte            `json:"pr_in,omitempty"`
 	PROut   []byte            `json:"pr_out,omitempty"`
 	Lowered []byte            `json:"lowered,omitempty"`
+	// guard
+	Rejected bool `json:"rejected,omitempty"` // "Hiding Kubernetes secrets requires a dry-run mode"
+	Stored   bool `json:"stored,omitempty"`   // a release record exists afterwards
 	// uninstall
 	Stream   []byte     `json:"stream,omitempty"`
 	NStreams int        `json:"nstreams,omitempty"`
@@ -130,18 +137,26 @@ func (*c08) CoqImport() string {
 	return "From Helm Require Import Text.Classify Text.Batch Text.Full Run.RunC08."
 }
 func (*c08) Rule() string {
-	return "four streams from one PRNG: raw YAML streams for SplitManifests (structured: 0-8 documents joined with " +
+	return "streams from one PRNG: raw YAML streams for SplitManifests (structured: 0-8 documents joined with " +
 		"LF/CRLF/blank-line/trailing-space separators, optional leading '---' and trailing separator; quirky: adjacent " +
 		"separators, '---' glued to text, \\v/NBSP/U+0085/U+2028 white space; soup: random token sequences), file maps for " +
 		"SortManifests and for a dry-run action.Install (1-6 files in nested paths incl. partials, NOTES.txt, blank files; " +
 		"documents of known/unknown/missing kinds from a per-case palette of 3-5 kinds so that kinds repeat, hook annotations " +
 		"with known, unknown, mixed, empty, upper-case and spaced event lists, weights incl. non-numeric/overflow, delete and " +
-		"log policies, comment-only and blank documents, files with more than ten documents, a malformed-YAML stream), and " +
+		"log policies, comment-only and blank documents, files with more than ten documents, a malformed-YAML stream), " +
+		"a token stream (event names, delete/log policies and the keep policy spelled with capitals, U+0130, U+0131, U+212A, U+017F, " +
+		"look-alike letters and letters drawn from every row of unicode.CaseRanges), strings.ToLower on token soup incl. invalid UTF-8, " +
+		"full renders (the same charts plus a nested subchart, crds/ files in root and subcharts with 27 name shapes and 10 bodies, " +
+		"Secret documents of several kinds/apiVersions incl. hook Secrets, NOTES.txt at up to 8 places with distinct texts, " +
+		"SubNotes / IncludeCRDs / HideSecret / OutputDir / UseReleaseName drawn independently, one of six in-process post-renderers in 45 %), " +
+		"the 32 combinations of DryRun x DryRunOption x HideSecret for the hide-secret guard, " +
 		"install-then-uninstall runs (1-3 files, 2-6 kinds from the uninstall table or core kinds, hook and resource-policy annotations; " +
 		"with core kinds the deletion is carried out by the real kube.Client against the delaying API), " +
 		"kind-sorted resource lists of 2-9 resources in 1-4 kind batches for kube.Client.Create with seeded random delays; " +
 		"non-trivial = split: at least 2 documents; sort/render: at least 2 documents placed and (a hook, a dropped document, " +
-		"an unknown kind or a repeated kind); uninstall: at least 2 kinds deleted; barrier: at least 2 batches; distinct = hash of (case, observation)"
+		"an unknown kind or a repeated kind); full: at least 2 entries placed and (a hidden Secret, a written file, a post-renderer call, " +
+		"CRDs or notes); lower: the result differs from the input; guard: HideSecret set; uninstall: at least 2 kinds deleted; " +
+		"barrier: at least 2 batches; distinct = hash of (case, observation)"
 }
 
 func (*c08) Decode(raw json.RawMessage) (any, error) {
@@ -194,6 +209,8 @@ func (*c08) NonTrivial(ci, oi any) bool {
 		return c08FullNonTrivial(c, obs)
 	case "lower":
 		return string(obs.Lowered) != string(c.Raw)
+	case "guard":
+		return c.HideSecret
 	case "uninstall":
 		docs, _ := c08StreamDocs(obs.Stream)
 		kinds := map[string]bool{}
@@ -382,6 +399,9 @@ func (*c08) CoqCase(ci, oi any) string {
 		return c08CoqFull(c, obs)
 	case "lower":
 		return fmt.Sprintf("CLower %s %s", c08Str(string(c.Raw)), c08Str(string(obs.Lowered)))
+	case "guard":
+		return fmt.Sprintf("CGuard (mkRunFlags %s %s %s) %s %s", hx.CoqBool(c.DryRun), c08Str(c.DryRunOption), hx.CoqBool(c.HideSecret),
+			hx.CoqBool(obs.Rejected && obs.Panic == ""), hx.CoqBool(obs.Stored))
 	case "barrier":
 		evs := make([]string, len(obs.Events))
 		for i, e := range obs.Events {
@@ -465,6 +485,10 @@ func (*c08) Exhaustive(tier string) []any {
 		maxLen = 5
 	}
 	var out []any
+	out = append(out, c08GuardCases()...)
+	if tier == "thorough" {
+		out = append(out, c08FullExhaustive()...)
+	}
 	var rec func(prefix string, depth int)
 	rec = func(prefix string, depth int) {
 		if depth > 0 {
